@@ -55,6 +55,10 @@ def r14_1(run):
     for fi, mod, st, t, val, kind in stores:
         fn = fi.short if fi else mod.name
         ok = fn in GRAD_WRITERS
+        if not ok and fi is not None:
+            # a private helper that serves only members of the writer set (an extracted block of one of them) inherits its owner's obligations
+            from .util import owner_closure
+            ok = fi.qualname in owner_closure(run, {"mygrad." + k for k in GRAD_WRITERS})
         run.ob("R14.1", loc(mod, st), fn, f"writer of Tensor._grad: {fn} ({'None' if is_none_value(val) else kind})", ok,
                GRAD_WRITERS.get(fn, "") if ok else
                "a function outside the closed writer set assigns a tensor's gradient: its shape/dtype/ownership obligations are unchecked")
@@ -348,8 +352,10 @@ def r14_3(run):
         if g is None:
             run.ob("R14.3", loc(fi, s), fi.short, f"store {norm(s)[:50]}", False, "stored value is not a tracked local")
             continue
+        from .util import projection_aliases, sem
+        _al = projection_aliases(fi.node)
         asserts = [n for n, st in cfg.stmt.items() if isinstance(st, ast.Assert) and isinstance(st.test, ast.Compare)
-                   and {norm(st.test.left), norm(st.test.comparators[0])} == {f"{g}.shape", f"{var}.shape"}
+                   and {sem(st.test.left, _al), sem(st.test.comparators[0], _al)} == {f"{g}.shape", f"{var}.shape"}
                    and isinstance(st.test.ops[0], ast.Eq)]
         ok = any(cfg.dominates(a, ns) and not _redefined_between(cfg, g, a, ns, like=f"{var}.data") for a in asserts)
         run.ob("R14.3", loc(fi, s), fi.short, f"shape of `{norm(s)[:40]}`", ok,
